@@ -4,6 +4,7 @@
 (* in every state every get is compared: operational = declarative, and the *)
 (* history is printed for replay into the real CacheTable.                   *)
 EXTENDS CacheTable, Json, TLC
+IdKey(v) == v           \* values are plain integers here (cfg: Key <- IdKey)
 
 CONSTANTS Sizes, NTags, MaxOps, Emit
 Default == 0
